@@ -160,3 +160,52 @@ Example C14_nonvacuous :
   = AOk (s_ "/d/x") [s_ "k=a/f0.parquet"; s_ "k=a/f2.parquet"] /\
   fast_rel (s_ "/d/x") (s_ "/d/x/k=b/f1.parquet") = s_ "k=b/f1.parquet".
 Proof. vm_compute. repeat split. Qed.
+
+(* ---------------------------------------------------------------------------------------------------------------
+   "Dictionary-encoded categorical columns keep the right label in every row even when the files carry different
+   dictionaries."   Model: Dataset/CatRead.v (shared with C07; tied to the real merged read by the correspondence
+   `CatRead.read_cat ~ categorical column of the merged read`): ONE label list for the whole output column, replaced by
+   every dictionary page, so every code is shown with the dictionary read LAST.
+
+   Full statement wanted by the property:   forall init chunks, read_cat init chunks = expected_cat chunks.
+   It is FALSE on the faithful model of today's reader (C07_categorical_relabel_refuted; open finding C14-categorical-labels,
+   redesign of categorical reading).  What IS guaranteed, with the EXACT guard:                                        *)
+From Pq Require Import Dataset.CatRead Dataset.CatGuard Proofs.CatReadMerge.
+
+(* every row shows its own label WHENEVER every code that occurs in a chunk means the same label under the chunk's own
+   dictionary and under the dictionary read last - for every number of files / row groups, every dictionary, every code list *)
+Theorem C14_categorical_labels_partial : forall (init : list label) (chunks : list chunk),
+  Forall (fun ch => forall c, In (Some c) (snd ch) ->
+                    nth_error (own_labels ch) c = nth_error (final_labels init chunks) c) chunks ->
+  read_cat init chunks = expected_cat chunks.
+Proof. exact read_cat_guard_sufficient. Qed.
+Print Assumptions C14_categorical_labels_partial.
+
+(* ... and ONLY then: the guard is necessary as well, so it is the exact extent of the finding; `guard_b` decides it
+   (the check evaluates the extracted guard_b on the dictionaries and codes of every generated list of files and demands
+   correct labels exactly where it says true) *)
+Theorem C14_categorical_guard_exact : forall (init : list label) (chunks : list chunk),
+  guard_b init chunks = true <-> read_cat init chunks = expected_cat chunks.
+Proof. exact read_cat_guard_b. Qed.
+Print Assumptions C14_categorical_guard_exact.
+
+(* label sets that grow from file to file: every dictionary a prefix of the last one, codes inside the own dictionary *)
+Theorem C14_categorical_prefix : forall (init : list label) (chunks : list chunk),
+  Forall (fun ch => is_prefix (own_labels ch) (final_labels init chunks) /\ codes_in_range ch) chunks ->
+  read_cat init chunks = expected_cat chunks.
+Proof. exact read_cat_prefix. Qed.
+Print Assumptions C14_categorical_prefix.
+
+(* dictionaries that agree only up to ORDER are not enough (computed witness: ['1','2'] then ['2','1'], code 0 in both) *)
+Theorem C14_categorical_permuted_refuted :
+  exists chunks, (forall ch1 ch2, In ch1 chunks -> In ch2 chunks -> same_label_set (own_labels ch1) (own_labels ch2))
+              /\ Forall codes_in_range chunks
+              /\ read_cat [] chunks <> expected_cat chunks.
+Proof. exact read_cat_permuted_refuted. Qed.
+Print Assumptions C14_categorical_permuted_refuted.
+
+Example C14_categorical_nonvacuous :
+  guard_b [] [(Some [7%N], [Some 0%nat; None]); (Some [7%N; 8%N; 9%N], [Some 1%nat; Some 0%nat])] = true /\
+  guard_b [] [(Some [7%N; 8%N], [Some 1%nat]); (Some [7%N; 9%N], [Some 0%nat])] = false /\
+  guard_b [] [(Some [7%N; 8%N], [Some 0%nat]); (Some [7%N; 9%N], [Some 0%nat; Some 1%nat])] = true.
+Proof. vm_compute. repeat split. Qed.
